@@ -156,6 +156,7 @@ class MoveMachine(e2.Machine):
             out.append(('M', i))
             out.append(('C', i))
         out.append(('D',))
+        out.append(('Q',))     # run the whole query battery on the receiver (primes any cache) and go on
         out.append(('B', 4))   # move by v then by -v (must restore)
         out.append(('B', 5))
         return out
@@ -171,8 +172,20 @@ class MoveMachine(e2.Machine):
         recv = lib.to_lib(self.base)
         ret = None
         last_eq = None
+        t = (0, 0, 0)
         for ev in hist:
-            if ev[0] == 'M':
+            if ev[0] in ('M', 'C'):
+                t = X.add(t, SIGMA[ev[1]])
+            if ev[0] == 'Q':
+                probes = [lib.to_lib(translate(p, t)) for p in self.probes0]
+                ppts = [lib.P(X.add(p, t)) for p in self.ppts0]
+                battery(recv, probes, ppts)
+                lib.call(hash, recv)
+                lib.call(repr, recv)
+                if ret is not None and not isinstance(ret, lib.Raised) and ret is not recv:
+                    lib.call(hash, ret)
+                last_eq = None
+            elif ev[0] == 'M':
                 v = lib.V(SIGMA[ev[1]])
                 ret = lib.call(recv.move, v)
                 last_eq = ('M', ret, recv)
@@ -272,9 +285,9 @@ def run(tier, seed):
     ms = machines(tier)
     res = e2.run_machines('C07', ms, seed)
     res.rule = ('states = distinct (bit-exact object-graph snapshot of receiver+returned handle incl. aliasing, model translation) reached by all '
-                'histories over {move(v), chained move(v), deepcopy, move(v);move(-v)} with v in a 7-letter lattice alphabet up to the stated depth per '
+                'histories over {move(v), chained move(v), deepcopy, query battery, move(v);move(-v)} with v in a 7-letter lattice alphabet up to the stated depth per '
                 'type; in every state both handles answer the full query battery like a freshly constructed object at the model translation')
-    res.alphabets = {'moves': [core.enc(v) for v in SIGMA], 'letters_per_state': 17, 'depth': DEPTHS[tier],
+    res.alphabets = {'moves': [core.enc(v) for v in SIGMA], 'letters_per_state': 18, 'depth': DEPTHS[tier],
                      'bases': {k: len(v) for k, v in BASES.items()}, 'probes': len(PROBES)}
     return res
 
